@@ -12,6 +12,10 @@ if [ -f /verif/harness/puppet/puppet.c ]; then
   if [ ! -x /verif/target/puppet ] || [ /verif/harness/puppet/puppet.c -nt /verif/target/puppet ]; then
     cc -O1 -g -pthread -o /verif/target/puppet.tmp /verif/harness/puppet/puppet.c -ldl && mv /verif/target/puppet.tmp /verif/target/puppet
   fi
+  # the same program as a position-DEPENDENT executable (ET_EXEC at 0x400000) with a build id
+  if [ ! -x /verif/target/puppet_nopie ] || [ /verif/harness/puppet/puppet.c -nt /verif/target/puppet_nopie ]; then
+    cc -O1 -g -pthread -no-pie -fno-pie -Wl,--build-id=sha1 -o /verif/target/puppet_nopie.tmp /verif/harness/puppet/puppet.c -ldl && mv /verif/target/puppet_nopie.tmp /verif/target/puppet_nopie
+  fi
 fi
 
 # ELF / non-ELF fixture files (generated, never committed)
